@@ -256,6 +256,14 @@ func registerStd(e *Engine) {
 		}
 		return int64(-1)
 	})
+	e.reg("internal/bytealg.CompareString", func(fr *frame, args []value) value {
+		a, ok1 := args[0].(string)
+		b, ok2 := args[1].(string)
+		if ok1 && ok2 {
+			return int64(strings.Compare(a, b))
+		}
+		return compareCells(fr, strCells(fr, args[0]), strCells(fr, args[1]))
+	})
 	e.reg("internal/bytealg.Count", func(fr *frame, args []value) value {
 		n := int64(0)
 		for _, b := range args[0].([]value) {
